@@ -82,10 +82,7 @@ Theorem c40_terminal_iff_terminal_event : forall state ex cursor cex e,
   exists st' cu' res,
     reduceMessageEventAppend state ex cursor cex e = (st', cu', true, res)
     /\ isMessageEventTerminal (st_status st') = isMessageEventTerminalEvent (e_etype e).
-Proof.
-  intros state ex cursor cex e H. destruct (reduce_apply state ex cursor cex e H) as (st' & cu' & res & E & S).
-  exists st', cu', res. split; [exact E | exact (as_terminal _ _ _ _ _ _ _ _ S)].
-Qed.
+Proof. exact reduce_terminal_iff. Qed.
 Print Assumptions c40_terminal_iff_terminal_event.
 
 (* a terminal lane is never changed again, by any history of appends *)
@@ -172,10 +169,7 @@ Theorem c40_cache_loss_leaves_no_open_lane : forall ca e,
   /\ openStatesForFinish (resumeAfterRestore ca) e = []
   /\ (forall hash_slot_of lost, existsb (N.eqb (hash_slot_of (e_channel e))) lost = true ->
         openStatesForFinish (removeHashSlotsObserved ca hash_slot_of lost) e = []).
-Proof.
-  intros ca e. split; [apply open_states_after_reset|]. split; [apply open_states_after_pause|].
-  split; [apply open_states_after_resume|]. intros. apply open_states_after_authority_loss. assumption.
-Qed.
+Proof. exact cache_loss_leaves_no_open_lane. Qed.
 Print Assumptions c40_cache_loss_leaves_no_open_lane.
 
 (* otherwise exactly one proposal: one flush close per open cached lane (in lane
@@ -246,7 +240,7 @@ Print Assumptions c40_model_satisfies_monitor_reduce.
 (* every history of Shard / WriteBatch appends: the trace of the model satisfies the monitor *)
 Theorem c40_model_satisfies_monitor : forall ops ks,
   C40_monitor (C40Meta (meta_trace ks db_empty ops)) = 0.
-Proof. intros ops ks. exact (meta_model_satisfies_monitor ops ks db_empty). Qed.
+Proof. exact meta_model_satisfies_monitor_empty. Qed.
 Print Assumptions c40_model_satisfies_monitor.
 
 (* every node history: on the trace of the model the table part of the monitor (atomic
@@ -255,10 +249,7 @@ Print Assumptions c40_model_satisfies_monitor.
 Theorem c40_model_satisfies_monitor_node : forall ops ks max_sessions chan_hs hs_count,
   C40_monitor (C40Node max_sessions hs_count chan_hs (node_trace ks (node_init max_sessions chan_hs hs_count) ops))
   = node_clauses ks (node_init max_sessions chan_hs hs_count) [] ops.
-Proof.
-  intros ops ks max_sessions chan_hs hs_count.
-  exact (node_model_durable ops ks (node_init max_sessions chan_hs hs_count) []).
-Qed.
+Proof. exact node_model_satisfies_monitor. Qed.
 Print Assumptions c40_model_satisfies_monitor_node.
 
 (* ------------------------------------------------------------------------------------------
